@@ -52,7 +52,8 @@ def trace_cfg(cfg: Dict[str, Any], proxy: int = 0) -> Dict[str, Any]:
 
 def _event(kind: str, n: int, **kw) -> Dict[str, Any]:
     d = {"ev": kind, "accepted": False, "order": [], "vals": [[] for _ in range(n)], "qual": [[] for _ in range(n)],
-         "lar": [False] * n, "post": [False] * n, "once": [False] * n, "cur": [0] * n, "tot": [0] * n, "envr": 0, "exc": ""}
+         "lar": [False] * n, "post": [False] * n, "once": [False] * n, "cur": [0] * n, "tot": [0] * n, "envr": 0, "exc": "",
+         "fresh": [[] for _ in range(n)]}
     d.update(kw)
     return d
 
@@ -127,7 +128,7 @@ class RewardRecorder:
     def step(self, tr: Dict[str, Any], game, env_reward: Optional[float] = None):
         """Called after a completed game step: read everything from the objects."""
         n = tr["cfg"]["n"]
-        vals, qual, lar_ok, post_ok, once_ok, cur, tot = [], [], [], [], [], [], []
+        vals, qual, lar_ok, post_ok, once_ok, cur, tot, fresh = [], [], [], [], [], [], [], []
         try:
             for ai, (name, agent) in enumerate(game.agents.items()):
                 ccfg = tr["cfg"]["comps"][ai]
@@ -136,7 +137,7 @@ class RewardRecorder:
                     raise RuntimeError("harness: component list of the object differs from the scenario's")
                 last = agent.history[-1] if agent.history else None
                 # "that agent's own latest action": the item the agent logged for the step just taken
-                v_a, q_a, ok = [], [], last is not None and last.timestep == game.step_counter - 1
+                v_a, q_a, f_a, ok = [], [], [], last is not None and last.timestep == game.step_counter - 1
                 post = once = True
                 for (comp, _w), cc in zip(comps, ccfg):
                     if self.type_of.get(type(comp)) != cc["typ"]:
@@ -148,14 +149,17 @@ class RewardRecorder:
                         if c is None:
                             v_a.append(0)
                             q_a.append(False)
+                            f_a.append(0)
                             continue
                     v_a.append(milli(c["ret"]))
                     ok = ok and (c["lar"] is last)
                     # "post-step state": a state taken from the simulation after this step's tick
                     post = post and any(c["state"] is st and cnt == game.step_counter for st, cnt in self.states)
                     q_a.append(self._qualifying(comp, cc, c["state"], last))
+                    f_a.append(self._fresh(comp, cc, c, v_a[-1]))
                 vals.append(v_a)
                 qual.append(q_a)
+                fresh.append(f_a)
                 lar_ok.append(bool(ok))
                 post_ok.append(bool(post))
                 once_ok.append(bool(once))
@@ -164,7 +168,24 @@ class RewardRecorder:
             envr = milli(env_reward) if env_reward is not None else 0
         finally:
             self.calls = {}
-        tr["ev"].append(_event("Step", n, vals=vals, qual=qual, lar=lar_ok, post=post_ok, once=once_ok, cur=cur, tot=tot, envr=envr))
+        tr["ev"].append(_event("Step", n, vals=vals, qual=qual, lar=lar_ok, post=post_ok, once=once_ok, cur=cur, tot=tot, envr=envr,
+                               fresh=fresh))
+
+    def _fresh(self, comp, cc, call, actual: int) -> int:
+        """What a memory-less twin of a sticky-capable component (same class, same options, sticky off, built now) returns
+        for the same state and the same latest action: at a qualifying event a component's value is its fresh
+        evaluation, whatever it remembered.  Other components: the value itself (no claim)."""
+        if cc["kind"] != "sticky":
+            return actual
+        saved = self.calls
+        try:
+            self.calls = {}
+            twin = type(comp)(config=comp.config.model_copy(update={"sticky": False}))
+            return milli(twin.calculate(call["state"], call["lar"]))
+        except Exception:  # noqa - the twin could not be built / evaluated: no claim
+            return actual
+        finally:
+            self.calls = saved
 
     @staticmethod
     def _qualifying(comp, cc, state, last) -> bool:
